@@ -41,7 +41,11 @@ CONSTANTS
   CreateMayFail, \* TRUE: create_session() may fail for reasons outside the model (listener gone, register error)
   PopAny,      \* FALSE: create_sessions pops the newest entry (as the code); TRUE: any entry (conformance only needs membership)
   OverrideC2,  \* cluster-level override of cluster "c2" (MC instance)
-  Deviations,  \* open known findings modelled as the code behaves (none so far)
+  OvrValues,   \* values a run-time change of a cluster's max_connections_per_ip (AddCluster again) may carry; {} = never changed
+  Deviations,  \* open known findings modelled as the code behaves (none so far); self-test switches:
+               \*   "NoHystFloor"    the 90 % mark without its floor of 1 (before fix f5d9aa4)
+               \*   "LazyTrack"      the gate records no slot while the resolved limit is 0 ("feature unused")
+               \*   "SlotLeakOnFail" a session that dies after the gate but before it got a backend keeps its slots
   Script,      \* generator steering: <<>> or the sequence of step names a generated behaviour must follow
                \* (the arguments and the predicted states remain the spec's)
   Gen,         \* "off" | "hist": keep a history, print one REPLAY line per behaviour of length Depth
@@ -52,9 +56,12 @@ VARIABLES
   nb,          \* SessionManager::nb_connections
   canAccept,   \* SessionManager::can_accept
   perIpLimit,  \* SessionManager::max_connections_per_ip
+  ovr,         \* [Clusters -> Int] cluster-level max_connections_per_ip as the proxies know it now (starts as Override)
   perIp,       \* connections_per_cluster_ip : [Clusters \X Ips -> Int]
   tracks,      \* cluster_ip_tracks : [Toks -> SUBSET (Clusters \X Ips)]
   stale,       \* slots whose count was already above the limit when the limit last changed
+  held,        \* ghost: [Toks -> SUBSET Slots] the slots a connection occupies as the STATEMENT means it: the gate let it
+               \* through to the cluster (since the tables were last wiped), whatever the limit was at that moment
   slab,        \* set of slab entries
   backlog,     \* connected, not yet accepted (kernel listen queue)
   queue,       \* Server::accept_queue : Seq([sock, age])
@@ -65,7 +72,7 @@ VARIABLES
   served,      \* sockets that have received at least one byte from sozu and are still open
   hist         \* generator history (empty unless Gen)
 
-vars == <<nb, canAccept, perIpLimit, perIp, tracks, stale, slab, backlog, queue, cs, sess, poolUsed, conns, served, hist>>
+vars == <<nb, canAccept, perIpLimit, ovr, perIp, tracks, stale, held, slab, backlog, queue, cs, sess, poolUsed, conns, served, hist>>
 
 ---------------------------------------------------------------------------
 Slots == Clusters \X Ips
@@ -90,7 +97,8 @@ HystRaw == (Max * 90) \div 100
 Hyst == IF "NoHystFloor" \in Deviations \/ HystRaw >= 1 THEN HystRaw ELSE 1
 
 \* effective_max_connections_per_ip
-EffLimit(c) == IF Override[c] >= 0 THEN Override[c] ELSE perIpLimit
+EffLimit(c) == IF ovr[c] >= 0 THEN ovr[c] ELSE perIpLimit
+EffLimitIn(ov, lim, c) == IF ov[c] >= 0 THEN ov[c] ELSE lim
 
 \* SessionManager::cluster_ip_at_limit
 AtLimit(t, c, ip) ==
@@ -103,19 +111,20 @@ RemoveAt(q, i) == SubSeq(q, 1, i - 1) \o SubSeq(q, i + 1, Len(q))
 
 \* Generator bookkeeping: the step record plus the SessionManager-visible part of the state the
 \* spec predicts after the step (S->I comparison).  Must be the LAST conjunct of an action.
-AtLimitIn(tr, pi, lim, t, c, ip) ==
-  LET l == IF Override[c] >= 0 THEN Override[c] ELSE lim
+AtLimitIn(tr, pi, lim, ov, t, c, ip) ==
+  LET l == EffLimitIn(ov, lim, c)
   IN l > 0 /\ <<c, ip>> \notin tr[t] /\ pi[<<c, ip>>] >= l
-ProjOf(n, ca, sl, lim, pi, tr) ==
+ProjOf(n, ca, sl, lim, ov, pi, tr) ==
   [nb |-> n, ca |-> ca, slab |-> Cardinality(sl), limit |-> lim,
+   ovr |-> {[c |-> c, v |-> ov[c]] : c \in {d \in Clusters : ov[d] >= 0}},
    counts |-> {[c |-> x[1], ip |-> x[2], n |-> pi[x]] : x \in {y \in Slots : pi[y] # 0}},
    tracks |-> UNION {{[t |-> t, c |-> x[1], ip |-> x[2]] : x \in tr[t]} : t \in Toks},
    atl |-> UNION {{[t |-> t, c |-> x[1], ip |-> x[2]] :
-                     x \in {y \in Slots : AtLimitIn(tr, pi, lim, t, y[1], y[2])}} : t \in Toks}]
-PreProj == ProjOf(nb, canAccept, slab, perIpLimit, perIp, tracks)
-PostProj == ProjOf(nb', canAccept', slab', perIpLimit', perIp', tracks')
+                     x \in {y \in Slots : AtLimitIn(tr, pi, lim, ov, t, y[1], y[2])}} : t \in Toks}]
+PreProj == ProjOf(nb, canAccept, slab, perIpLimit, ovr, perIp, tracks)
+PostProj == ProjOf(nb', canAccept', slab', perIpLimit', ovr', perIp', tracks')
 \* steps that call into (or change what is visible through) the SessionManager object
-ObjectOps == {"CheckLimits", "CreateOk", "Incr", "Track", "Link", "Unlink", "Close", "SetPerIpLimit"}
+ObjectOps == {"CheckLimits", "CreateOk", "Incr", "Track", "Link", "Unlink", "Close", "SetPerIpLimit", "SetOverride"}
 Rec(r) ==
   CASE Gen = "hist" -> /\ Len(hist) < Depth
                        /\ Script # <<>> => r.op = Script[Len(hist) + 1]
@@ -133,13 +142,13 @@ Connect(s) ==
   /\ s \notin backlog /\ s \notin QueueSocks /\ cs.sock # s
   /\ \A t \in Toks : sess[t].sock # s
   /\ backlog' = backlog \cup {s}
-  /\ UNCHANGED <<nb, canAccept, perIpLimit, perIp, tracks, stale, slab, queue, cs, sess, poolUsed, conns, served>>
+  /\ UNCHANGED <<nb, canAccept, perIpLimit, ovr, perIp, tracks, held, stale, slab, queue, cs, sess, poolUsed, conns, served>>
   /\ Rec([op |-> "Connect", s |-> s])
 
 Tick ==
   /\ \E i \in 1..Len(queue) : queue[i].age <= QT
   /\ queue' = [i \in 1..Len(queue) |-> [queue[i] EXCEPT !.age = IF @ <= QT THEN @ + 1 ELSE @]]
-  /\ UNCHANGED <<nb, canAccept, perIpLimit, perIp, tracks, stale, slab, backlog, cs, sess, poolUsed, conns, served>>
+  /\ UNCHANGED <<nb, canAccept, perIpLimit, ovr, perIp, tracks, held, stale, slab, backlog, cs, sess, poolUsed, conns, served>>
   /\ Rec([op |-> "Tick"])
 
 ---------------------------------------------------------------------------
@@ -151,7 +160,7 @@ AcceptPush(s) ==
   /\ s \in backlog
   /\ backlog' = backlog \ {s}
   /\ queue' = Append(queue, [sock |-> s, age |-> 0])
-  /\ UNCHANGED <<nb, canAccept, perIpLimit, perIp, tracks, stale, slab, cs, sess, poolUsed, conns, served>>
+  /\ UNCHANGED <<nb, canAccept, perIpLimit, ovr, perIp, tracks, held, stale, slab, cs, sess, poolUsed, conns, served>>
   /\ Rec([op |-> "AcceptPush", s |-> s])
 
 ---------------------------------------------------------------------------
@@ -166,7 +175,7 @@ PopWith(i, age) ==
   /\ IF age > QT
      THEN cs' = AfterIter(queue')                   \* accept_queue.timeout: socket dropped, loop continues
      ELSE cs' = [pc |-> "popped", sock |-> queue[i].sock, tok |-> 0]
-  /\ UNCHANGED <<nb, canAccept, perIpLimit, perIp, tracks, stale, slab, backlog, sess, poolUsed, conns, served>>
+  /\ UNCHANGED <<nb, canAccept, perIpLimit, ovr, perIp, tracks, held, stale, slab, backlog, sess, poolUsed, conns, served>>
   /\ Rec([op |-> "Pop", s |-> queue[i].sock, timedout |-> age > QT])
 
 Pop == \E i \in 1..Len(queue) : PopWith(i, queue[i].age)
@@ -179,23 +188,27 @@ CheckLimitsWith(len) ==
      /\ cs' = IF room THEN [cs EXCEPT !.pc = "admit"]
               ELSE IF cs.pc = "popped" /\ EvictOn THEN [cs EXCEPT !.pc = "evict"]
               ELSE Idle                              \* the popped socket is dropped, the loop breaks
-  /\ UNCHANGED <<nb, perIpLimit, perIp, tracks, stale, slab, backlog, queue, sess, poolUsed, conns, served>>
+  /\ UNCHANGED <<nb, perIpLimit, ovr, perIp, tracks, held, stale, slab, backlog, queue, sess, poolUsed, conns, served>>
   /\ Rec([op |-> "CheckLimits", res |-> (nb < Max /\ len < SlabThreshold)])
 
 CheckLimits == CheckLimitsWith(SlabLen)
 
-\* what a session gives back when it ends (close() + slab sweep + decr())
-Release(t) ==
+\* what a session gives back when it ends (close() + slab sweep + decr()).
+\* keep = TRUE only under the self-test deviation SlotLeakOnFail: the (cluster, ip) slots stay behind.
+ReleaseK(t, keep) ==
   /\ slab' = slab \ ({Front(t)} \cup {Back(t, c) : c \in Clusters})
   /\ poolUsed' = poolUsed - sess[t].bufs
   /\ conns' = [c \in Clusters |-> IF c \in sess[t].backs THEN conns[c] - 1 ELSE conns[c]]
-  /\ perIp' = [x \in Slots |-> IF x \in tracks[t] THEN perIp[x] - 1 ELSE perIp[x]]
-  /\ tracks' = [tracks EXCEPT ![t] = {}]
+  /\ IF keep THEN UNCHANGED <<perIp, tracks>>
+     ELSE /\ perIp' = [x \in Slots |-> IF x \in tracks[t] THEN perIp[x] - 1 ELSE perIp[x]]
+          /\ tracks' = [tracks EXCEPT ![t] = {}]
+  /\ held' = [held EXCEPT ![t] = {}]
   /\ stale' = {x \in stale : perIp'[x] > EffLimit(x[1])}
   /\ served' = served \ {sess[t].sock}
   /\ sess' = [sess EXCEPT ![t] = NoSess]
   /\ nb' = nb - 1
   /\ canAccept' = IF ~canAccept /\ nb - 1 < Hyst THEN TRUE ELSE canAccept
+Release(t) == ReleaseK(t, FALSE)
 
 \* evict_least_active_sessions: (max/100).max(1) = 1 session for the sizes modelled;
 \* which one is the least recently active is the code's choice
@@ -204,14 +217,14 @@ EvictClose(t) ==
   /\ Live(t)
   /\ Release(t)
   /\ cs' = [cs EXCEPT !.pc = "rechk"]
-  /\ UNCHANGED <<perIpLimit, backlog, queue>>
+  /\ UNCHANGED <<perIpLimit, ovr, backlog, queue>>
   /\ Rec([op |-> "Close", t |-> t, why |-> "evict"])
 
 EvictNone ==
   /\ cs.pc = "evict"
   /\ LiveToks = {}
   /\ cs' = Idle                                     \* nothing to evict: socket dropped, loop breaks
-  /\ UNCHANGED <<nb, canAccept, perIpLimit, perIp, tracks, stale, slab, backlog, queue, sess, poolUsed, conns, served>>
+  /\ UNCHANGED <<nb, canAccept, perIpLimit, ovr, perIp, tracks, held, stale, slab, backlog, queue, sess, poolUsed, conns, served>>
   /\ Rec([op |-> "EvictNone"])
 
 \* proxy.create_session(): slab entry + front buffer
@@ -224,7 +237,7 @@ CreateOk(t, tls) ==
   /\ sess' = [sess EXCEPT ![t] = [stage |-> IF tls THEN "hs" ELSE "front",   \* HTTPS listener: handshake first
                                   sock |-> cs.sock, bufs |-> 1, backs |-> {}]]
   /\ cs' = [cs EXCEPT !.pc = "created", !.tok = t]
-  /\ UNCHANGED <<nb, canAccept, perIpLimit, perIp, tracks, stale, backlog, queue, conns, served>>
+  /\ UNCHANGED <<nb, canAccept, perIpLimit, ovr, perIp, tracks, held, stale, backlog, queue, conns, served>>
   /\ Rec([op |-> "CreateOk", t |-> t, s |-> cs.sock, tls |-> tls])
 
 \* create_session() returned Err (listener gone, register error, no buffer): socket dropped, loop breaks
@@ -232,7 +245,7 @@ CreateFail ==
   /\ cs.pc = "admit"
   /\ CreateMayFail \/ poolUsed >= PoolCap
   /\ cs' = Idle
-  /\ UNCHANGED <<nb, canAccept, perIpLimit, perIp, tracks, stale, slab, backlog, queue, sess, poolUsed, conns, served>>
+  /\ UNCHANGED <<nb, canAccept, perIpLimit, ovr, perIp, tracks, held, stale, slab, backlog, queue, sess, poolUsed, conns, served>>
   /\ Rec([op |-> "CreateFail"])
 
 \* SessionManager::incr
@@ -240,7 +253,7 @@ Incr ==
   /\ cs.pc = "created"
   /\ nb' = nb + 1
   /\ cs' = AfterIter(queue)                          \* the loop goes on until the queue is empty
-  /\ UNCHANGED <<canAccept, perIpLimit, perIp, tracks, stale, slab, backlog, queue, sess, poolUsed, conns, served>>
+  /\ UNCHANGED <<canAccept, perIpLimit, ovr, perIp, tracks, held, stale, slab, backlog, queue, sess, poolUsed, conns, served>>
   /\ Rec([op |-> "Incr"])
 
 ---------------------------------------------------------------------------
@@ -250,37 +263,46 @@ HandshakeOk(t) ==
   /\ cs.pc = "idle" /\ sess[t].stage = "hs"
   /\ sess' = [sess EXCEPT ![t].stage = "front"]
   /\ served' = served \cup {sess[t].sock}            \* ServerHello
-  /\ UNCHANGED <<nb, canAccept, perIpLimit, perIp, tracks, stale, slab, backlog, queue, cs, poolUsed, conns>>
+  /\ UNCHANGED <<nb, canAccept, perIpLimit, ovr, perIp, tracks, held, stale, slab, backlog, queue, cs, poolUsed, conns>>
   /\ Rec([op |-> "HandshakeOk", t |-> t])
 
 \* mux::Router::connect / TcpSession::connect_to_backend: the per-(cluster, ip) gate.
 \* Admitted: track (idempotent per token).  At the limit: 429 / close, nothing taken.
+\* The slot is recorded WHATEVER the resolved limit is (0 = unlimited included): a limit switched on later
+\* (SetMaxConnectionsPerIp, a cluster re-declared with another max_connections_per_ip) must find the
+\* connections already being served in the tables.  Self-test deviation LazyTrack: nothing is recorded while
+\* the resolved limit is 0, the connection goes on to its backend all the same.
 Track(t, c, ip) ==
   /\ cs.pc = "idle" /\ sess[t].stage \in {"front", "linked"}
   /\ ~AtLimit(t, c, ip)
-  /\ tracks' = [tracks EXCEPT ![t] = @ \cup {<<c, ip>>}]
-  /\ perIp' = [perIp EXCEPT ![<<c, ip>>] = IF <<c, ip>> \in tracks[t] THEN @ ELSE @ + 1]
-  /\ UNCHANGED <<nb, canAccept, perIpLimit, stale, slab, backlog, queue, cs, sess, poolUsed, conns, served>>
+  /\ IF "LazyTrack" \in Deviations /\ EffLimit(c) = 0
+     THEN UNCHANGED <<tracks, perIp>>
+     ELSE /\ tracks' = [tracks EXCEPT ![t] = @ \cup {<<c, ip>>}]
+          /\ perIp' = [perIp EXCEPT ![<<c, ip>>] = IF <<c, ip>> \in tracks[t] THEN @ ELSE @ + 1]
+  /\ held' = [held EXCEPT ![t] = @ \cup {<<c, ip>>}]
+  /\ UNCHANGED <<nb, canAccept, perIpLimit, ovr, stale, slab, backlog, queue, cs, sess, poolUsed, conns, served>>
   /\ Rec([op |-> "Track", t |-> t, c |-> c, ip |-> ip, atl |-> FALSE])
 
 Reject(t, c, ip) ==
   /\ cs.pc = "idle" /\ sess[t].stage \in {"front", "linked"}
   /\ AtLimit(t, c, ip)
   /\ served' = served \cup {sess[t].sock}            \* the 429 answer (TCP: plain close follows)
-  /\ UNCHANGED <<nb, canAccept, perIpLimit, perIp, tracks, stale, slab, backlog, queue, cs, sess, poolUsed, conns>>
+  /\ UNCHANGED <<nb, canAccept, perIpLimit, ovr, perIp, tracks, held, stale, slab, backlog, queue, cs, sess, poolUsed, conns>>
   /\ Rec([op |-> "Track", t |-> t, c |-> c, ip |-> ip, atl |-> TRUE])
 
+\* a session reaches a backend of cluster c only through the gate (Router::connect / connect_to_backend)
+LinkAllowed(t, c) == \E ip \in Ips : <<c, ip>> \in held[t]
 \* backend connection: slab entry, backend counter, back buffer
 Link(t, c) ==
   /\ cs.pc = "idle" /\ sess[t].stage \in {"front", "linked"}
-  /\ \E ip \in Ips : <<c, ip>> \in tracks[t]         \* the gate ran first
+  /\ LinkAllowed(t, c)                              \* the gate ran first
   /\ c \notin sess[t].backs /\ Cardinality(sess[t].backs) < MaxBack
   /\ poolUsed < PoolCap
   /\ slab' = slab \cup {Back(t, c)}
   /\ conns' = [conns EXCEPT ![c] = @ + 1]
   /\ poolUsed' = poolUsed + 1
   /\ sess' = [sess EXCEPT ![t].stage = "linked", ![t].bufs = @ + 1, ![t].backs = @ \cup {c}]
-  /\ UNCHANGED <<nb, canAccept, perIpLimit, perIp, tracks, stale, backlog, queue, cs, served>>
+  /\ UNCHANGED <<nb, canAccept, perIpLimit, ovr, perIp, tracks, held, stale, backlog, queue, cs, served>>
   /\ Rec([op |-> "Link", t |-> t, c |-> c])
 
 \* backend closed / failed / keep-alive expired while the session goes on
@@ -291,14 +313,14 @@ Unlink(t, c) ==
   /\ poolUsed' = poolUsed - 1
   /\ sess' = [sess EXCEPT ![t].backs = @ \ {c}, ![t].bufs = @ - 1,
                           ![t].stage = IF sess[t].backs = {c} THEN "front" ELSE "linked"]
-  /\ UNCHANGED <<nb, canAccept, perIpLimit, perIp, tracks, stale, backlog, queue, cs, served>>
+  /\ UNCHANGED <<nb, canAccept, perIpLimit, ovr, perIp, tracks, held, stale, backlog, queue, cs, served>>
   /\ Rec([op |-> "Unlink", t |-> t, c |-> c])
 
 \* WebSocket upgrade: mux -> pipe, same token, same resources
 Upgrade(t) ==
   /\ cs.pc = "idle" /\ sess[t].stage = "linked" /\ Cardinality(sess[t].backs) = 1
   /\ sess' = [sess EXCEPT ![t].stage = "ws"]
-  /\ UNCHANGED <<nb, canAccept, perIpLimit, perIp, tracks, stale, slab, backlog, queue, cs, poolUsed, conns, served>>
+  /\ UNCHANGED <<nb, canAccept, perIpLimit, ovr, perIp, tracks, held, stale, slab, backlog, queue, cs, poolUsed, conns, served>>
   /\ Rec([op |-> "Upgrade", t |-> t])
 
 \* any answer byte written to the client (response, default answer, relay)
@@ -306,7 +328,7 @@ Serve(t) ==
   /\ cs.pc = "idle" /\ sess[t].stage \in {"front", "linked", "ws"}
   /\ sess[t].sock \notin served
   /\ served' = served \cup {sess[t].sock}
-  /\ UNCHANGED <<nb, canAccept, perIpLimit, perIp, tracks, stale, slab, backlog, queue, cs, sess, poolUsed, conns>>
+  /\ UNCHANGED <<nb, canAccept, perIpLimit, ovr, perIp, tracks, held, stale, slab, backlog, queue, cs, sess, poolUsed, conns>>
   /\ Rec([op |-> "Serve", t |-> t])
 
 Reasons == {"complete", "fail", "timeout", "reset", "handshakefail", "zombie"}
@@ -316,8 +338,8 @@ Close(t, why) ==
   /\ cs.pc = "idle" /\ Live(t)
   /\ why \in Reasons
   /\ (why = "handshakefail") = (sess[t].stage = "hs")
-  /\ Release(t)
-  /\ UNCHANGED <<perIpLimit, backlog, queue, cs>>
+  /\ ReleaseK(t, "SlotLeakOnFail" \in Deviations /\ why = "fail" /\ sess[t].backs = {} /\ tracks[t] # {})
+  /\ UNCHANGED <<perIpLimit, ovr, backlog, queue, cs>>
   /\ Rec([op |-> "Close", t |-> t, why |-> why])
 
 \* ZombieSweep: zombie_check closes every session idle for longer than the interval, one kill_session each
@@ -334,18 +356,30 @@ SetPerIpLimit(n) ==
   /\ IF n = 0
      THEN /\ perIp' = [x \in Slots |-> 0]            \* clear_cluster_ip_tracking
           /\ tracks' = [t \in Toks |-> {}]
-     ELSE UNCHANGED <<perIp, tracks>>
-  /\ stale' = {x \in Slots : LET l == IF Override[x[1]] >= 0 THEN Override[x[1]] ELSE n
-                             IN l > 0 /\ perIp'[x] > l}
-  /\ UNCHANGED <<nb, canAccept, slab, backlog, queue, cs, sess, poolUsed, conns, served>>
+          /\ held' = [t \in Toks |-> {}]             \* the code forgets the connections open at that moment (as is)
+     ELSE UNCHANGED <<perIp, tracks, held>>
+  /\ stale' = {x \in Slots : LET l == EffLimitIn(ovr, n, x[1]) IN l > 0 /\ perIp'[x] > l}
+  /\ UNCHANGED <<nb, canAccept, ovr, slab, backlog, queue, cs, sess, poolUsed, conns, served>>
   /\ Rec([op |-> "SetPerIpLimit", n |-> n])
+
+\* AddCluster for a cluster that exists, with another max_connections_per_ip (-1 = inherit the global limit,
+\* 0 = unlimited, n).  Nothing is wiped: the tables keep counting, only the resolved limit changes.
+SetOverride(c, v) ==
+  /\ cs.pc = "idle"
+  /\ v \in OvrValues /\ v # ovr[c]
+  /\ ovr' = [ovr EXCEPT ![c] = v]
+  /\ stale' = {x \in Slots : LET l == EffLimitIn(ovr', perIpLimit, x[1]) IN l > 0 /\ perIp[x] > l}
+  /\ UNCHANGED <<nb, canAccept, perIpLimit, perIp, tracks, held, slab, backlog, queue, cs, sess, poolUsed, conns, served>>
+  /\ Rec([op |-> "SetOverride", c |-> c, v |-> v])
 
 ---------------------------------------------------------------------------
 InitWith(limit) ==
   /\ nb = 0 /\ canAccept = TRUE
   /\ perIpLimit = limit
+  /\ ovr = Override
   /\ perIp = [x \in Slots |-> 0]
   /\ tracks = [t \in Toks |-> {}]
+  /\ held = [t \in Toks |-> {}]
   /\ stale = {}
   /\ slab = BaseSlab
   /\ backlog = {} /\ queue = <<>> /\ cs = Idle
@@ -381,13 +415,14 @@ Reset          == \E t \in Toks : Close(t, "reset")
 HandshakeFail  == \E t \in Toks : Close(t, "handshakefail")
 Zombie         == \E t \in Toks : ZombieSweep(t)
 SetLimit       == \E n \in Limits : SetPerIpLimit(n)
+SetClusterLimit == \E c \in Clusters, v \in OvrValues : Override[c] >= 0 /\ SetOverride(c, v)   \* (MC: only the cluster that has an override)
 
 Next ==
   \/ Env_Connect \/ Tick
   \/ Accept \/ Pop \/ CheckLimits \/ Evict \/ EvictNone \/ Create \/ CreateFail \/ Incr
   \/ Handshake \/ UpgradeWs \/ ServeByte \/ LinkBackend \/ UnlinkBackend \/ TrackIp \/ RejectIp
   \/ Complete \/ Fail \/ Timeout \/ Reset \/ HandshakeFail \/ Zombie
-  \/ SetLimit
+  \/ SetLimit \/ SetClusterLimit
 
 Spec == Init /\ [][Next]_vars
 
@@ -406,11 +441,11 @@ FairSpec == Spec /\ Fairness
 (* interchangeable, so a state is identified by the bag of session descriptors, the queue as a *)
 (* sequence of (address, age), the backlog as a bag of addresses, and the counters.            *)
 Desc(t) == [stage |-> sess[t].stage, ip |-> IpOf[sess[t].sock], bufs |-> sess[t].bufs, backs |-> sess[t].backs,
-            tracks |-> tracks[t], served |-> sess[t].sock \in served,
+            tracks |-> tracks[t], held |-> held[t], served |-> sess[t].sock \in served,
             cur |-> cs.tok = t,
             slab |-> <<Front(t) \in slab, {c \in Clusters : Back(t, c) \in slab}>>]
 View ==
-  <<nb, canAccept, perIpLimit, perIp, stale, poolUsed, conns,
+  <<nb, canAccept, perIpLimit, ovr, perIp, stale, poolUsed, conns,
     Cardinality(slab \cap BaseSlab), Cardinality(slab),
     {<<ip, Cardinality({s \in backlog : IpOf[s] = ip})>> : ip \in Ips},
     [i \in 1..Len(queue) |-> <<IpOf[queue[i].sock], queue[i].age>>],
@@ -424,7 +459,8 @@ View ==
 
 TypeOK ==
   /\ nb \in Int /\ canAccept \in BOOLEAN /\ perIpLimit \in Limits
-  /\ perIp \in [Slots -> Int] /\ tracks \in [Toks -> SUBSET Slots]
+  /\ perIp \in [Slots -> Int] /\ tracks \in [Toks -> SUBSET Slots] /\ held \in [Toks -> SUBSET Slots]
+  /\ ovr \in [Clusters -> Int]
   /\ poolUsed \in Int /\ conns \in [Clusters -> Int]
   /\ cs.pc \in {"idle", "loop", "popped", "admit", "evict", "rechk", "created"}
   /\ \A t \in Toks : sess[t].stage \in {"none", "hs", "front", "linked", "ws"}
@@ -440,6 +476,14 @@ P_C16_PerIpLimit == \A x \in Slots : (EffLimit(x[1]) > 0 /\ x \notin stale) => p
 \* one connection occupies at most one slot per (cluster, ip): the count is the number of tokens holding the slot
 P_C16_OneSlotPerToken == \A x \in Slots : perIp[x] = Cardinality({t \in Toks : x \in tracks[t]})
 P_C16_TracksOnlyLive == \A t \in Toks : tracks[t] # {} => Live(t)
+\* every connection the gate let through to a cluster occupies a RECORDED slot - also when it came while the
+\* resolved limit was 0: the tables count the connections being served, so that a limit switched on at run time
+\* is in force at once ...
+P_C16_SlotRecorded == \A t \in Toks : held[t] \subseteq tracks[t]
+\* ... and the statement itself: the connections of one address being served by one cluster never exceed the limit
+\* in force (unless they were already above it when the limit last changed)
+ServedBy(x) == {t \in Toks : x \in held[t]}
+P_C16_PerIpServed == \A x \in Slots : (EffLimit(x[1]) > 0 /\ x \notin stale) => Cardinality(ServedBy(x)) <= EffLimit(x[1])
 \* no counter below zero
 P_C16_NoUnderflow == /\ nb >= 0 /\ poolUsed >= 0 /\ poolUsed <= PoolCap
                      /\ \A c \in Clusters : conns[c] >= 0
@@ -450,7 +494,7 @@ P_C16_Baseline ==
   NoSession => /\ nb = 0 /\ slab = BaseSlab /\ poolUsed = 0
                /\ \A c \in Clusters : conns[c] = 0
                /\ \A x \in Slots : perIp[x] = 0
-               /\ \A t \in Toks : tracks[t] = {}
+               /\ \A t \in Toks : tracks[t] = {} /\ held[t] = {}
                /\ served = {}
 \* resources in use are exactly what the live sessions hold
 P_C16_Accounting ==
@@ -460,7 +504,8 @@ P_C16_Accounting ==
   /\ \A c \in Clusters : conns[c] = Cardinality({t \in LiveToks : c \in sess[t].backs})
 
 P_C16 == /\ P_C16_NbLeMax /\ P_C16_NbCountsSessions /\ P_C16_ServedLeMax /\ P_C16_PerIpLimit
-         /\ P_C16_OneSlotPerToken /\ P_C16_TracksOnlyLive /\ P_C16_NoUnderflow /\ P_C16_Baseline
+         /\ P_C16_OneSlotPerToken /\ P_C16_TracksOnlyLive /\ P_C16_SlotRecorded /\ P_C16_PerIpServed
+         /\ P_C16_NoUnderflow /\ P_C16_Baseline
          /\ P_C16_Accounting
 
 \* action properties
@@ -493,7 +538,7 @@ EmitHist ==
 \* Generation only needs every SessionManager-level transition once; the replayer builds the
 \* pre-state from its projection, so states that differ only in the environment are merged.
 GDesc(t) == <<sess[t].stage = "hs", sess[t].backs, tracks[t], IpOf[sess[t].sock], cs.tok = t>>
-GenView == <<nb, canAccept, perIpLimit, perIp, Cardinality(slab), cs.pc, queue # <<>>, backlog # {}, hist,
+GenView == <<nb, canAccept, perIpLimit, ovr, perIp, Cardinality(slab), cs.pc, queue # <<>>, backlog # {}, hist,
              {<<GDesc(t), Cardinality({u \in LiveToks : GDesc(u) = GDesc(t)})>> : t \in LiveToks}>>
 
 =============================================================================
